@@ -288,7 +288,9 @@ func activeWithoutTags(src string) bool {
 			if err != nil {
 				return true
 			}
-			return x.Eval(func(tag string) bool { return tag == "linux" || tag == "amd64" || tag == "gc" || strings.HasPrefix(tag, "go1.") })
+			return x.Eval(func(tag string) bool {
+				return tag == "linux" || tag == "amd64" || tag == "gc" || strings.HasPrefix(tag, "go1.")
+			})
 		}
 	}
 	return true
